@@ -139,3 +139,24 @@ contract(f'{TC}::_TrajectoryDataFilter.should_record', props=('C03', 'C05', 'C11
                    'self.previous_v_mach'],
          modular=True,
          result_shape=OneOf(Const(None), Rec(tc.BaseTrajData, time=Real(), position=VEC, velocity=VEC, mach=Real())))
+
+# ---- history harnesses on a filter built by its real constructor (whatever fields it has) ------------------
+SF = 'verif:contracts/specfn.py'
+contract(f'{SF}::mach_flags_over_four_steps', props=('C15',),
+         params=dict(v1=Real(lo=0, hi=3), v2=Real(lo=0, hi=3), v3=Real(lo=0, hi=3), v4=Real(lo=0, hi=3)),
+         ensures=[('mach-row-each-time-the-speed-falls-through-the-speed-of-sound',
+                   'result[0] == (v1 > 1 and v2 <= 1) and result[1] == (v2 > 1 and v3 <= 1) and result[2] == (v3 > 1 and v4 <= 1)')],
+         modifies=[])
+T = 'math.tan(look)'
+contract(f'{SF}::zero_flags_over_three_points', props=('C15',),
+         params=dict(sight_height_neg=Real(lo=0.01, hi=1), look=Real(lo=-1, hi=1), y1=Real(), y2=Real(), y3=Real()),
+         ensures=[
+             ('zero-up-at-the-first-point-on-or-above-the-sight-line-once',
+              f'((result[0] & 1) != 0) == (y1 >= 1 * {T}) and ((result[1] & 1) != 0) == (y1 < 1 * {T} and y2 >= 2 * {T}) and '
+              f'((result[2] & 1) != 0) == (y1 < 1 * {T} and y2 < 2 * {T} and y3 >= 3 * {T})'),
+             ('zero-down-at-the-first-point-below-the-line-after-the-upward-crossing-once',
+              f'((result[0] & 2) != 0) == False and ((result[1] & 2) != 0) == (y1 >= 1 * {T} and y2 < 2 * {T}) and '
+              f'((result[2] & 2) != 0) == ((y1 >= 1 * {T} and y2 >= 2 * {T} and y3 < 3 * {T}) or '
+              f'(y1 < 1 * {T} and y2 >= 2 * {T} and y3 < 3 * {T}))'),
+         ],
+         modifies=[])
